@@ -30,6 +30,8 @@ from .values import (
     Union,
     Val,
     ivar,
+    mk_sym,
+    subst_sym,
     join_val,
     short,
     subst_val,
@@ -251,6 +253,8 @@ class ExecMixin:
             if d is not None and isinstance(d[0], ListObj):
                 self.bi.list_extend(state, cur, rhs, st)
                 return
+        if self.reductions and id(st) in self.reductions[-1]:
+            self.reductions[-1][id(st)].append((rhs, self.loops[-1].token if self.loops else None))
         v = self.binop(st.op, cur, rhs, st, state)
         h = self.hooks.get("aug")
         if h is not None:
@@ -532,6 +536,73 @@ class ExecMixin:
                 self.exec_block(st.orelse, res)
         state.assign_from(res)
 
+    @staticmethod
+    def _reduction_candidates(st: ast.For):
+        """`acc += e` / `acc -= e` as a top-level statement of the loop body, executed exactly once per iteration: no other
+        store to acc in the loop, acc not read by e, no break/return in the loop, no continue before the statement."""
+        c = getattr(st, "_osv_reductions", None)
+        if c is not None:
+            return c
+        out = []
+        if not st.orelse:
+            nodes = [n for s_ in st.body for n in ast.walk(s_)]
+            if not any(isinstance(n, (ast.Break, ast.Return, ast.Yield, ast.YieldFrom)) for n in nodes):
+                for i, s_ in enumerate(st.body):
+                    if not (isinstance(s_, ast.AugAssign) and isinstance(s_.target, ast.Name) and isinstance(s_.op, (ast.Add, ast.Sub))):
+                        continue
+                    name = s_.target.id
+                    stores = [n for n in nodes if isinstance(n, ast.Name) and n.id == name and isinstance(n.ctx, (ast.Store, ast.Del))]
+                    if len(stores) != 1 or any(isinstance(n, ast.Name) and n.id == name for n in ast.walk(s_.value)):
+                        continue
+                    if any(isinstance(n, (ast.Continue, ast.Raise)) for e_ in st.body[:i] for n in ast.walk(e_)):
+                        continue
+                    if any(isinstance(n, (ast.Global, ast.Nonlocal)) for n in nodes):
+                        continue
+                    out.append((name, s_, 1 if isinstance(s_.op, ast.Add) else -1))
+        st._osv_reductions = out
+        return out
+
+    def _close_reductions(self, st, seq: Seq, state: State, cands, entry, rec, outer_tokens) -> None:
+        """After the loop: acc = acc_entry (+/-) fold(+, k, e[k], len): the accumulated local gets the fold's term as its value
+        number (its interval, degree and provenance stay what the iteration computed)."""
+        if seq.length.term is None or seq.flags & {"partial", "reordered", "building", "weak-append", "cond-append", "multi-append", "unmodelled"}:
+            return
+        for name, aug, sign in cands:
+            key, v0 = entry[name]
+            obs = rec.get(id(aug)) or []
+            if key is None or not isinstance(v0, Num) or not obs or (v0.sym is None and v0.const is None):
+                continue
+            toks = {t for _, t in obs}
+            if len(toks) != 1 or None in toks or toks & outer_tokens:
+                continue
+            tok = toks.pop()
+            rhs = obs[0][0]
+            if not all(isinstance(r, Num) and r.sym is not None and r.sym == rhs.sym for r, _ in obs):
+                continue
+            cur = state.vars.get(key)
+            if not isinstance(cur, Num):
+                continue
+            fv = f"$f{self.site_id('fold', aug)}"
+            esym = subst_sym(rhs.sym, {tok: ivar(fv)})
+            fold = mk_sym("fold", ("const", "+"), ("const", fv), esym, ("lenterm", seq.length.term))
+            if sign < 0:
+                fold = mk_sym("neg", fold)
+            v0sym = v0.sym if v0.sym is not None else ("const", v0.const)
+            sym = fold if (v0.const is not None and v0.const == 0) else mk_sym("add", v0sym, fold)
+            wt = cur.wt
+            if self.shift_mode:
+                from . import shift
+
+                fw = shift.fold_sum(self, rhs, seq.length.term, aug)
+                if fw is not None and sign < 0:
+                    fw = shift.neg(self, replace(rhs, wt=fw), aug)
+                w0 = shift.weight_of(self, v0)
+                wt = shift.binop(self, "add", replace(v0, wt=w0), replace(rhs, wt=fw), aug) if fw is not None and w0 is not None else None
+            elem_k = subst_val(rhs, {tok: ivar(fv)})
+            self.event("fold", aug, how="loop", seq=Seq(seq.length, elem_k, fv, None, None, seq.flags, "iter"), elem=rhs, sym=sym, full=True, additive=True)
+            self.axiom("a local changed only by one unconditional `acc += e` per iteration holds, after the loop, its entry value plus the sum of e over all iterations")
+            state.vars[key] = replace(cur, sym=sym, wt=wt)
+
     def others_of(self, seq: Seq, target, test: ast.expr, want: str, state: State, node) -> Optional[Seq]:
         """When `test` (with the loop target bound to the element at a generic position) compares that position with the
         position of an enclosing loop over equally many positions — `want` is 'Eq' for a skipping guard, 'NotEq' for a
@@ -648,7 +719,23 @@ class ExecMixin:
             others = self.others_of(seq, st.target, guard[0], guard[1], state, st)
             if others is not None:
                 seq, body = others, guard[2]
-        self.run_loop(seq, st, state, lambda elem, s: self.assign(st.target, elem, s, st), lambda s: self.exec_block(body, s))
+        cands = self._reduction_candidates(st) if seq.fixed is None or len(seq.fixed) > UNROLL else []
+        if not cands:
+            self.run_loop(seq, st, state, lambda elem, s: self.assign(st.target, elem, s, st), lambda s: self.exec_block(body, s))
+        else:
+            entry = {}
+            for name, aug, sign in cands:
+                key = self.lookup_key(name, state)
+                entry[name] = (key, state.vars.get(key) if key is not None else None)
+            outer_tokens = {l.token for l in self.loops}
+            rec: Dict[int, list] = {id(aug): [] for _, aug, _ in cands}
+            self.reductions.append(rec)
+            try:
+                self.run_loop(seq, st, state, lambda elem, s: self.assign(st.target, elem, s, st), lambda s: self.exec_block(body, s))
+            finally:
+                self.reductions.pop()
+            if not state.bottom:
+                self._close_reductions(st, seq, state, cands, entry, rec, outer_tokens)
         if st.orelse and not state.bottom:
             self.exec_block(st.orelse, state)
 
